@@ -66,7 +66,7 @@ CHECKS = {
                 'Equality of tracked and real state on concrete traces is not observed. publish_proof compares the conclusion with the HEAD of the claim list and drops exactly it (claim-queue); the generator\'s freshness judgement implies the documented one (shared with C02).'
                 ' arity-enforced: operands are never compared with the tracked stack through zip (truncation accepts a short stack). The two substitution tables are composed (the tracker computes Instantiate results with the generator\'s substitution).'
                 " 'Modulo the numbering of symbols' is sound only for ONE injective symbol table for the three streams: C03's one-symbol-table rules are composed in (also when the table lives on a helper object that must not be re-created at a phase change)."
-                ' Pop / Save / Publish act on the top: the tracker accepts only when the named term equals stack[-1]; each publish call is accepted only in its phase; phase changes go gamma -> claim -> proof and every override passes them on.',
+                ' Pop / Save / Publish act on the top: the tracker accepts only when the named term equals stack[-1]; each publish call is accepted only in its phase; phase changes go gamma -> claim -> proof and every override passes them on. Since round 8: after a phase change the IO layer writes to the stream given for that phase (value of self.out at return of into_claim_phase / into_proof_phase).',
         'note': 'Trusted: python ast, rustc MIR. Known findings in known_findings.json (publish_* leave the term on the tracked stack; claims not queued).',
         'design_ref': 'DESIGN.md section 3, C04',
     },
@@ -78,7 +78,7 @@ CHECKS = {
                 'replayed per phase; the decode loop ends only at end of input; unknown bytes raise. Five genuine gaps are recorded as '
                 'known findings. Equality of the replayed state on concrete modules is not observed. writer-lossless: in every encoding case each argument of the call is written, tied to a stack slot by the tracker, or forced to its default by the condition selecting the case (24 cases).'
                 ' The opcode dispatched on is Instruction(<the byte the loop condition read>), unchanged; the k-th operand read is handed to the parameter the k-th written operand comes from (reader-order: a swap of two equally shaped operands replays another term).'
-                ' Reader slots are strict (a parameter the tracker compares with stack[-k] must be that slot); Instantiate takes the n entries directly below the top keyed by the n ids read; Load replays memory[<operand>]; the claim published / the theorem compared is the top; the cursor starts at 0; the list reader returns what it read. Since wave 6 the replayed call must supply every parameter of the interpreter method, and operand reads are counted per execution so that readers binding each list by its own statement are decided by the operand-order rule.',
+                ' Reader slots are strict (a parameter the tracker compares with stack[-k] must be that slot); Instantiate takes the n entries directly below the top keyed by the n ids read; Load replays memory[<operand>]; the claim published / the theorem compared is the top; the cursor starts at 0; the list reader returns what it read. Since wave 6 the replayed call must supply every parameter of the interpreter method, and operand reads are counted per execution so that readers binding each list by its own statement are decided by the operand-order rule. Since round 8: table-generated serializer methods are read with the parameter list of the method they override; one that takes operand bytes from positional arguments only while forwarding keywords is reported.',
         'note': 'Trusted: python ast. Known findings: no decoder branch for Quantifier/Generalization, constraint element types, Publish in gamma/proof phases.',
         'design_ref': 'DESIGN.md section 3, C14',
     },
@@ -176,7 +176,7 @@ CHECKS = {
                 'shrunk) shared by the three files through one serializer; all 26 writes are unmasked bytes([...]) so ids above 255 '
                 'raise. The emitted files are not decoded and compared. A write through a byte-rendering helper of the repository counts as bounded only if the helper is `bytes(<its parameter>)` (a masking helper is a violation); `table.setdefault(name, len(table))` is read as the lookup-or-assign idiom. The transformer base forwards every pattern-construction call (evar .. instantiate_pattern) to the same method of the wrapped interpreter, once, with the same arguments.'
                 ' What is published is the declared pattern itself: Interpreter.pattern rebuilds every field from the same-named field (shared with C08). The symbol table may live on an object the serializer keeps, which must then be created once per serializer.'
-                ' add_axiom / add_claim / add_proof_expression append what is added exactly when it is new; the memoiser loads a pattern found in memory exactly once.',
+                ' add_axiom / add_claim / add_proof_expression append what is added exactly when it is new; the memoiser loads a pattern found in memory exactly once. Since round 8 the generator spelling of the gamma theory (imports first through their own generator, then the own axioms) is read; its shallow variant is reported.',
         'note': 'Trusted: python ast; the MAY_PUBLISH table confirmed by reading.',
         'design_ref': 'DESIGN.md section 3, C03',
     },
@@ -214,7 +214,7 @@ CHECKS = {
                 'consumed order-insensitively (automatic rules or a reasoned triage entry) or is unreachable from the serialisation / '
                 'translation entry points; uses of id/hash/directory order/clock/randomness/environment are enumerated and triaged; no '
                 'mutable default arguments, no module- or class-level mutable state written from functions, no cache reading instance '
-                'state. Byte equality of outputs is never observed. Module-level or class-level instances of repository classes whose methods mutate their own attributes, annotated class-level containers mutated through instances, and sequences extended by a set are violations. A keyed sort (sorted/min/max with key=) over a set is order-sensitive (ties keep set order); locals of methods are typed with the class\'s attribute types. A loop over a set whose iterations only rewrite the table entry of their own element (effect rule) is order-free unless the loop variable is read after the loop.',
+                'state. Byte equality of outputs is never observed. Module-level or class-level instances of repository classes whose methods mutate their own attributes, annotated class-level containers mutated through instances, and sequences extended by a set are violations. A keyed sort (sorted/min/max with key=) over a set is order-sensitive (ties keep set order); locals of methods are typed with the class\'s attribute types. A loop over a set whose iterations only rewrite the table entry of their own element (effect rule) is order-free unless the loop variable is read after the loop. Since round 8: a keyed sort whose key contains the element is a total order; a set used for its truth value only is order-free.',
         'note': 'Trusted: annotations for set-typedness; spec/order_triage.py (9 reasoned entries); dict insertion order.',
         'design_ref': 'DESIGN.md section 3, C18',
     },
@@ -257,7 +257,7 @@ CHECKS = {
                 ' A set iteration in the slicer is order-free only if all it produces in order is a run of `$d` statements (they commute), whatever its spelling; a `$d` restriction is emitted exactly under `pair <= declared variables`.'
                 " Every antecedent component a lemma block is taken apart into reaches both the lemma's own slice and the axiom registered for later slices (sibling agreement)."
                 ' The small functions the slicer is built from are decided on the values they return (labels between the parentheses, block = antecedents + lemma, registered axiom, notation axiom of a constructor, constant scan); arguments are not exchanged (arguments-by-name); what is needed is never passed over by the emitting pass.'
-                ' The printer half: per Encoder method and path, every field of the node is written (unless known empty), tokens are separated by blanks, delimiters come in pairs, `$` is followed by the statement letter, a provable statement gets `$=` (printer-output). Since wave 6: the $c / $v statements are built from the whole collected sets, and notation axioms and syntax dependencies are added for every label of the set.',
+                ' The printer half: per Encoder method and path, every field of the node is written (unless known empty), tokens are separated by blanks, delimiters come in pairs, `$` is followed by the statement letter, a provable statement gets `$=` (printer-output). Since wave 6: the $c / $v statements are built from the whole collected sets, and notation axioms and syntax dependencies are added for every label of the set. Since round 8: the pass that emits the statements named by the proof is not under a condition.',
         'note': 'Trusted: python ast; the grammar is read from the `syntax` constant of metamath/parser.py.',
         'design_ref': 'DESIGN.md section 3, C17',
     },
@@ -288,7 +288,7 @@ CHECKS = {
                 'modules cannot even be imported here; the analysis is purely syntactic). KSymbol.unwrap_kore_name is the exact inverse of the prefixing in aml_symbol (removeprefix / slice of the prefix length under a startswith guard); the rows of instantiate, load and the publishes (the only calls a K proof makes) are the C02 rows.'
                 ' get_proof_hints examines every adjacent pair of trace entries (loop header evaluated over four abstract entries); the configuration is advanced only after the claim and the proof are registered, decided by event order through helper methods.'
                 ' The scope tables are distinct objects per scope (no dict.fromkeys(keys, {}) / [[..]] * n sharing).'
-                " Every hint of the trace becomes one rewrite step on one proof expression; the rule's axiom is declared before the proof is registered; a hint's configuration before is what the previous step reached and its configuration after is the conversion of the next trace entry (hint-chains-configurations); each Kore connective is converted to its notation with the components in the connective's own order (conversion-order, 13 arms). Since wave 6: a step is built only from a rule event followed by a configuration (class test on the next entry on the yielding path), and the scope cached for an axiom is the one made in the branch of that axiom.",
+                " Every hint of the trace becomes one rewrite step on one proof expression; the rule's axiom is declared before the proof is registered; a hint's configuration before is what the previous step reached and its configuration after is the conversion of the next trace entry (hint-chains-configurations); each Kore connective is converted to its notation with the components in the connective's own order (conversion-order, 13 arms). Since wave 6: a step is built only from a rule event followed by a configuration (class test on the next entry on the yielding path), and the scope cached for an axiom is the one made in the branch of that axiom. Since round 8: every axiom sentence takes exactly one ordinal inside the pass over the sentences, and the axiom lookup reaches every transitively imported module.",
         'note': 'Trusted: python ast.',
         'design_ref': 'DESIGN.md section 3, C20',
     },
